@@ -348,6 +348,14 @@ def setup(ctx: FunctionContext) -> Exec:
 
     setup_sig = setup_info.sig
     if not setup_sig:
+        # no setUp(): the constructor is the whole setup, and its loop cuts must be reported as well
+        if sevm.logs.bounded_loops:
+            warn_code(
+                LOOP_BOUND,
+                f"constructor: paths have not been fully explored due to the loop unrolling bound: {args.loop}",
+            )
+            debug("\n".join(jumpid_str(x) for x in sevm.logs.bounded_loops))
+
         if args.statistics:
             print(setup_timer.report())
         return setup_ex
